@@ -56,12 +56,24 @@ func cardWith(props map[string]*string) vcard.Card {
 		"NOTE": {{Value: "ab"}},
 	}
 	for k, v := range props {
-		if v != nil {
+		switch v {
+		case nil:
+		case emptyKey:
+			card[k] = []*vcard.Field{} // key present, no field: an absent property
+		case nilKey:
+			card[k] = nil
+		default:
 			card[k] = []*vcard.Field{{Value: *v}}
 		}
 	}
 	return card
 }
+
+// markers for "the card has the key but no field under it"
+var (
+	emptyKey = new(string)
+	nilKey   = new(string)
+)
 
 func sp(s string) *string { return &s }
 
@@ -91,13 +103,16 @@ func partSingle(k *checker, idx *int) {
 			lists3 = append(lists3, l)
 		}
 	}
-	pvs := pvChoices(alphabet5)
+	pvs := append(pvChoices(alphabet5), emptyKey, nilKey)
 	for _, outer := range outerTests {
 		for _, inner := range outerTests {
 			for _, ind := range []bool{false, true} {
 				for _, pv := range pvs {
 					for _, set := range [][][]carddav.TextMatch{lists, lists3} {
 						for _, tms := range set {
+							if (pv == emptyKey || pv == nilKey) && len(tms) > 2 {
+								continue
+							}
 							if ind && len(tms) > 1 {
 								// is-not-defined excludes text-matches (outside the
 								// domain); one-element lists are kept to watch the
@@ -127,7 +142,7 @@ func partSingle(k *checker, idx *int) {
 			}
 		}
 	}
-	c.Note("exhaustive_single", fmt.Sprintf("outer test %q x inner test (same) x is-not-defined x FN{absent,%q} x every list of 0..2 text-matches over match type %q x negate x needle %q, plus every list of 3 over needle [a] (thorough: [a ab]); with is-not-defined only lists of 0..1 (longer ones are outside the domain)",
+	c.Note("exhaustive_single", fmt.Sprintf("outer test %q x inner test (same) x is-not-defined x FN{absent, key with an empty field list, key with a nil field list, %q} x every list of 0..2 text-matches over match type %q x negate x needle %q, plus every list of 3 over needle [a] (thorough: [a ab]); with is-not-defined only lists of 0..1 (longer ones are outside the domain)",
 		outerTests, alphabet5, matchTypes, alphabet5))
 }
 
@@ -166,7 +181,7 @@ func pairConfigs(thorough bool) []pfConfig {
 	}
 	var out []pfConfig
 	for _, inner := range outerTests {
-		for _, pv := range pvChoices(values) {
+		for _, pv := range append(pvChoices(values), emptyKey) {
 			for _, tms := range lists {
 				out = append(out, pfConfig{inner, false, tms, pv})
 			}
@@ -211,7 +226,7 @@ func partPairs(k *checker, idx *int) {
 			}
 		}
 	}
-	c.Note("exhaustive_pairs", fmt.Sprintf("outer test %q x (config x config), %d configs per prop-filter = inner test x property {absent, values} x ({no text-match, 1 text-match (every type x negate x needle), 2 text-matches over a base of %d} + is-not-defined alone); quick: filters on FN and EMAIL, thorough: also both on FN",
+	c.Note("exhaustive_pairs", fmt.Sprintf("outer test %q x (config x config), %d configs per prop-filter = inner test x property {absent, key without fields, values} x ({no text-match, 1 text-match (every type x negate x needle), 2 text-matches over a base of %d} + is-not-defined alone); quick: filters on FN and EMAIL, thorough: also both on FN",
 		outerTests, len(cfgs), map[bool]int{false: 5, true: 6}[c.Thorough()]))
 }
 
@@ -272,13 +287,9 @@ func partLimits(k *checker, idx *int) {
 	c.Note("exhaustive_limits", "lists of 0..5 objects, every pattern over {match, no match} and over {match, no match, ⊥}, Limit -1..len+1, outer test {default, anyof, allof}, address-data {none, FN, NOTE}")
 }
 
-// --- part D: projections -------------------------------------------------------
-
-func partProjections(k *checker, idx *int) {
-	c := k.c
-	four := []string{"FN", "EMAIL", "TEL", "X-CUSTOM"}
-	requestable := []string{"VERSION", "FN", "EMAIL", "TEL", "X-CUSTOM", "X-ABSENT"}
-	// all 16 cards over the 4 properties (TEL multi-valued with params and group)
+// projectionCards: all 16 cards over 4 properties (TEL multi-valued with
+// params and group).
+func projectionCards() []carddav.AddressObject {
 	var objs []carddav.AddressObject
 	for m := 0; m < 16; m++ {
 		card := vcard.Card{"VERSION": {{Value: "4.0"}}}
@@ -299,6 +310,16 @@ func partProjections(k *checker, idx *int) {
 		}
 		objs = append(objs, mkObject(m, card))
 	}
+	return objs
+}
+
+// --- part D: projections -------------------------------------------------------
+
+func partProjections(k *checker, idx *int) {
+	c := k.c
+	four := []string{"FN", "EMAIL", "TEL", "X-CUSTOM"}
+	requestable := []string{"VERSION", "FN", "EMAIL", "TEL", "X-CUSTOM", "X-ABSENT"}
+	objs := projectionCards()
 	filters := [][]carddav.PropFilter{
 		{{Name: "FN"}},
 		{{Name: "EMAIL", TextMatches: []carddav.TextMatch{{Text: "a", MatchType: "contains"}}}},
@@ -402,6 +423,15 @@ func rndCard(r *rand.Rand) vcard.Card {
 		key := name
 		if r.Intn(40) == 0 {
 			key = strings.ToLower(name)
+		}
+		if r.Intn(20) == 0 {
+			// a key without any field (as left behind by slicing or by a projection)
+			if r.Intn(2) == 0 {
+				card[key] = nil
+			} else {
+				card[key] = []*vcard.Field{}
+			}
+			continue
 		}
 		for i := 0; i < n; i++ {
 			f := &vcard.Field{Value: rndValue(r)}
@@ -567,8 +597,112 @@ func partRandom(k *checker) {
 		for o := range objs {
 			k.exec(&tcase{Kind: "match", Query: q, Objects: objs[o : o+1]}, "random: larger cards and queries")
 		}
-		k.exec(&tcase{Kind: "filter", Query: q, Objects: objs}, "random: larger cards and queries")
+		o := k.exec(&tcase{Kind: "filter", Query: q, Objects: objs}, "random: larger cards and queries")
+		if q != nil && !wholeCard(&q.DataRequest) && !o.panicked && o.err == nil {
+			// Filter-then-Match: the projected results are cards too.
+			for ri := range o.res {
+				obj := cpObject(o.res[ri])
+				k.exec(&tcase{Kind: "match", Query: q, Objects: []carddav.AddressObject{obj}}, "random: Match on the projected results of Filter")
+			}
+		}
 	}
+}
+
+// --- part F: Props is a prefix of another query's longer list -----------------------
+
+func partAliasing(k *checker, idx *int) {
+	c := k.c
+	names := []string{"VERSION", "FN", "EMAIL", "TEL", "X-CUSTOM", "X-ABSENT"}
+	objs := projectionCards()
+	filters := [][]carddav.PropFilter{{{Name: "FN"}}, {{Name: "TEL", IsNotDefined: true}}}
+	for sub := 0; sub < 1<<uint(len(names)); sub++ {
+		var base []string
+		for b, p := range names {
+			if sub&(1<<uint(b)) != 0 {
+				base = append(base, p)
+			}
+		}
+		if len(base) < 2 {
+			continue
+		}
+		for cut := 0; cut < len(base); cut++ {
+			for _, pfs := range filters {
+				for _, limit := range []int{0, 2} {
+					i := *idx
+					*idx++
+					if !c.Mine(i) {
+						continue
+					}
+					q := &carddav.AddressBookQuery{PropFilters: pfs, Limit: limit,
+						DataRequest: carddav.AddressDataRequest{Props: append([]string{}, base[:cut]...)}}
+					k.exec(&tcase{Kind: "filter", Query: q, Objects: objs, PropsTail: append([]string{}, base[cut:]...)},
+						"aliasing: Props is a prefix of another query's longer list (exhaustive)")
+				}
+			}
+		}
+	}
+	c.Note("exhaustive_aliasing", fmt.Sprintf("every ordered subset (>=2) of %q as the longer list, every proper prefix of it as DataRequest.Props in the same backing array, 16 cards, 2 filters, Limit {0,2}; besides, EVERY case hands every slice (Props, PropFilters, TextMatches, Params, the object list, card field lists, field parameter values) to the library with spare capacity filled with sentinels and compares the whole backing arrays afterwards", names))
+}
+
+// --- part G: Filter, then Match on what Filter returned ---------------------------
+
+func partChain(k *checker, idx *int) {
+	c := k.c
+	var objs []carddav.AddressObject
+	n := 0
+	for _, version := range []bool{true, false} {
+		for _, fn := range []*string{nil, sp("a"), emptyKey} {
+			for _, email := range []*string{nil, sp("ab")} {
+				card := cardWith(map[string]*string{"FN": fn, "EMAIL": email})
+				if !version {
+					delete(card, "VERSION")
+				}
+				objs = append(objs, mkObject(n, card))
+				n++
+			}
+		}
+	}
+	requestable := []string{"FN", "EMAIL", "X-ABSENT", "VERSION"}
+	var second []*carddav.AddressBookQuery
+	for _, name := range []string{"VERSION", "FN", "EMAIL", "NOTE"} {
+		for _, pf := range []carddav.PropFilter{
+			{Name: name},
+			{Name: name, IsNotDefined: true},
+			{Name: name, TextMatches: []carddav.TextMatch{{Text: "", MatchType: "contains"}}},
+			{Name: name, TextMatches: []carddav.TextMatch{{Text: "", MatchType: "equals"}}},
+			{Name: name, Test: "allof", TextMatches: []carddav.TextMatch{{Text: "a", MatchType: "contains", NegateCondition: true}}},
+		} {
+			second = append(second, &carddav.AddressBookQuery{PropFilters: []carddav.PropFilter{pf}})
+		}
+	}
+	for sub := 0; sub < 1<<uint(len(requestable)); sub++ {
+		var props []string
+		for b, p := range requestable {
+			if sub&(1<<uint(b)) != 0 {
+				props = append(props, p)
+			}
+		}
+		i := *idx
+		*idx++
+		if !c.Mine(i) {
+			continue
+		}
+		first := &carddav.AddressBookQuery{
+			PropFilters: []carddav.PropFilter{{Name: "NOTE"}},
+			DataRequest: carddav.AddressDataRequest{Props: props},
+		}
+		o := k.exec(&tcase{Kind: "filter", Query: first, Objects: objs}, "chain: Filter with projection (cards with and without VERSION)")
+		if o.panicked || o.err != nil {
+			continue
+		}
+		for ri := range o.res {
+			for _, q2 := range second {
+				obj := cpObject(o.res[ri])
+				k.exec(&tcase{Kind: "match", Query: q2, Objects: []carddav.AddressObject{obj}}, "chain: Match on the results of Filter (exhaustive)")
+			}
+		}
+	}
+	c.Note("exhaustive_chain", "12 cards = VERSION {present, absent} x FN {absent, a, key without fields} x EMAIL {absent, ab} (+NOTE); Filter with every subset of [FN EMAIL X-ABSENT VERSION] requested; every returned (projected) object is then matched against 20 queries = {VERSION, FN, EMAIL, NOTE} x {bare, is-not-defined, contains \"\", equals \"\", not contains a}: a key the projection left without fields is an absent property")
 }
 
 // ---------------------------------------------------------------------------
@@ -582,6 +716,8 @@ func c07Run(c *fw.Ctx) {
 	k.flush()
 	partLimits(k, &idx)
 	partProjections(k, &idx)
+	partAliasing(k, &idx)
+	partChain(k, &idx)
 	k.flush()
 	partRandom(k)
 	k.flush()
